@@ -226,11 +226,15 @@ def make_race2(prog, max_preempt):
             st.mode = 'run'
             before = st.snapshot()
             sx, sy = ex.fresh_int('size_x', 1, 1 << 16), ex.fresh_int('size_y', 1, 1 << 16)
+            ss = ex.fresh_int('size_s', 1, 1 << 16)
+            # /s is new to the archive and identical in both sources: both runs want to store the same block
             t1 = B.SourceTreeV([B.SrcFile('/', 'Dir', mtime=B.TimeV(1, 0), mode=0o755),
                                 B.SrcFile('/a', 'File', cls=1, size=s0, mtime=B.TimeV(10, 0), mode=0o644),
+                                B.SrcFile('/s', 'File', cls=8, size=ss, mtime=B.TimeV(13, 0), mode=0o644),
                                 B.SrcFile('/x', 'File', cls=5, size=sx, mtime=B.TimeV(11, 0), mode=0o644)])
             t2 = B.SourceTreeV([B.SrcFile('/', 'Dir', mtime=B.TimeV(1, 0), mode=0o755),
                                 B.SrcFile('/a', 'File', cls=1, size=s0, mtime=B.TimeV(10, 0), mode=0o644),
+                                B.SrcFile('/s', 'File', cls=8, size=ss, mtime=B.TimeV(13, 0), mode=0o644),
                                 B.SrcFile('/y', 'File', cls=6, size=sy, mtime=B.TimeV(12, 0), mode=0o644)])
             B.install_time(ex)
             B.install_source(ex, {'SRC1': t1, 'SRC2': t2})
@@ -263,9 +267,17 @@ def make_race2(prog, max_preempt):
                 if b == 0 or not info.get('tail'):
                     continue
                 fits = []
+                listed = [B.entry_fields(ex, e)['apath'] for hn in sorted(info['hunks']) for e in (info['hunks'][hn] or [])]
                 for nm, t in (('backup', t1), ('backup2', t2)):
                     pr = []
-                    B.check_complete_band(ex, st, b, t, pr, 'race', True)
+                    clean = results.get(nm) == 'Ok errors=0'
+                    if clean:
+                        B.check_complete_band(ex, st, b, t, pr, 'race', True)
+                    else:
+                        # a run that counted errors may have left out the files it reported; what it did record must be its own
+                        tp = [f.path for f in t.files]
+                        if any(p_ not in tp for p_ in listed) or len(set(listed)) != len(listed):
+                            pr.append('b%04d lists paths that are not in the tree' % b)
                     B.check_inv(ex, st, {b: {f.path: f for f in t.files}}, pr, 'race')
                     if not [x for x in pr if ('b%04d' % b) in x]:
                         fits.append(nm)
